@@ -26,7 +26,9 @@ ALL_FIELDS = {"i", "t", "y", "d", "e"}
 
 BASE = dict(N=2, MaxIdx=4, MaxCp=2, MaxTerm=1, MaxBatch=2, MaxTT=0, MaxTH=0, MaxSnap=0, MaxRestart=0, MaxCorrupt=0,
             MaxForeign=0, MaxBlock=0, MaxFail=0, MaxSteps=40, Eager=True, CfgAt1=True, Fields=set(), InFlight=False,
-            AtRest=False, TrackWrote=False, EmitEvery=0, BUG_NoResetOnDelete=True, BUG_LacksByFirstOnly=True)
+            AtRest=False, TrackWrote=False, EmitEvery=0,
+            # what the pinned code does (DESIGN 6 F11; and verify()'s range test, found by this check)
+            BUG_NoResetOnDelete=True, BUG_LacksByFirstOnly=True)
 
 
 def C(**kw):
@@ -158,23 +160,45 @@ def jvm_env():
 WORKERS = max(2, min(NCPU, 8))
 
 
-def design_run(consts, seed, timeout, emit_every=0, bugs=True, heap="4g", props=("C16", "C17", "C18")):
-    c = dict(consts, EmitEvery=emit_every, BUG_NoResetOnDelete=bugs, BUG_LacksByFirstOnly=bugs, Props=set(props))
+def design_run(consts, seed, timeout, emit_every=0, modes=(True,), heap="4g", props=("C16", "C17", "C18")):
+    """BFS of Verifier.tla.  modes: True = the model of the pinned code, False = the repaired design (both in one run).
+    Returns (result, {bug mode: {invariant: [hist]}}, [interesting behaviours of the pinned-code model])."""
+    c = dict(consts, EmitEvery=emit_every, Props=set(props), BugModes="@{" + ", ".join("TRUE" if m else "FALSE" for m in modes) + "}")
     cfg = cfg_text(constants=c, invariants=["TypeOK", "EmitCex", "EmitInt"], view="View")
-    r = tlc("Verifier", cfg, timeout=timeout, seed=seed, workers=WORKERS, heap=heap)
+    cover = bool(os.environ.get("VERIF_COVERAGE"))
+    r = tlc("Verifier", cfg, timeout=timeout * (4 if cover else 1), seed=seed, workers=WORKERS, heap=heap, coverage=cover)
+    r.actions = action_coverage(r.out, consts) if cover else None
     if r.error == "timeout":
         log("design run hit its time limit after %d states (partial exploration)" % r.generated)
     elif r.error or r.violated:
         raise Inconclusive("Verifier.tla design run failed: %s %s\n%s" % (r.error, r.violated, r.out[-3000:]))
-    cex = {}
+    cex = {True: {}, False: {}}
     for p in tlc_payloads(r, "CEX"):
-        cex.setdefault(p["inv"], []).append(p["h"])
-    ints = tlc_payloads(r, "INT")
+        cex[bool(p["bug"])].setdefault(p["inv"], []).append(p["h"])
+    ints = [p for p in tlc_payloads(r, "INT") if p["bug"]]
     return r, cex, ints
 
 
+ACTION_BUDGET = {"LeaderAppend": lambda c: True, "Replicate": lambda c: c["N"] > 1, "VerifierFinish": lambda c: True,
+                 "Boot": lambda c: c["CfgAt1"], "ChangeLeader": lambda c: c["MaxTerm"] > 1 and c["N"] > 1,
+                 "TruncateTail": lambda c: c["MaxTT"] > 0 and c["MaxTerm"] > 1, "TruncateHead": lambda c: c["MaxTH"] > 0,
+                 "Snap": lambda c: c["MaxSnap"] > 0 and c["N"] > 1, "Restart": lambda c: c["MaxRestart"] > 0,
+                 "CorruptAtRest": lambda c: c["AtRest"] and c["MaxCorrupt"] > 0 and len(c["Fields"]) > 0,
+                 "VerifierTake": lambda c: not c["Eager"], "ReportFnBlock": lambda c: c["MaxBlock"] > 0,
+                 "ReportFnUnblock": lambda c: c["MaxBlock"] > 0}
+
+
+def action_coverage(out, consts):
+    """-coverage 1: every action that the configuration's budgets allow must have produced states (DESIGN 4.6 iii)."""
+    acts = {}
+    for m in re.finditer(r"^<(\w+) line \d+, col \d+ to line \d+, col \d+ of module Verifier(?: \([^)]*\))?>: (\d+):(\d+)", out, re.M):
+        acts[m.group(1)] = {"distinct": int(m.group(2)), "generated": int(m.group(3))}
+    dead = sorted(a for a, on in ACTION_BUDGET.items() if on(consts) and acts.get(a, {}).get("generated", 0) == 0)
+    return {"actions": {a: acts.get(a) for a in ACTION_BUDGET}, "dead": dead}
+
+
 def simulate(consts, seed, num, timeout):
-    c = dict(consts, EmitEvery=0, Props=set())
+    c = dict(consts, EmitEvery=0, Props=set(), BugModes="@{TRUE}")
     cfg = cfg_text(constants=c, invariants=["TypeOK", "Emit"])
     r = tlc("Verifier", cfg, timeout=timeout, workers=1, simulate="num=%d" % num, depth=consts["MaxSteps"] + 1, seed=seed,
             heap="2g")
@@ -245,6 +269,7 @@ def judge(trace, timeout=1800):
     if not pl:
         raise Inconclusive("VerifierTrace printed no verdict\n%s" % r.out[-2000:])
     v = pl[-1]["v"]
+    r.cells = pl[-1].get("cells") or []
     return (v if isinstance(v, list) else []), pl[-1]["stat"], r
 
 
@@ -277,6 +302,10 @@ def drift(scen, events):
     for ln, e in events:
         if e["ev"] == "report":
             real.setdefault(e["n"], []).append((e["s"], e["e"], e["err"]))
+    if any(s.get("cf") == "i" and s.get("cp") or (s.get("op") == "rot" and s.get("f") == "i") for s in scen["steps"]):
+        # index corruption is concretised in several ways (+1, +2, a flipped bit): only the error classes are comparable
+        pred = {n: [x[2] for x in v] for n, v in pred.items()}
+        real = {n: [x[2] for x in v] for n, v in real.items()}
     d = 0
     for n, ps in pred.items():
         rs = real.get(n, [])
@@ -322,31 +351,26 @@ def check(pid, tier, seed):
     cex_all, int_all = {}, {}
     repaired_cex = 0
     for name, consts, both in prof["design"]:
-        r, cex, ints = design_run(consts, seed, prof["tlc_timeout"], emit_every=prof["emit_every"], bugs=True, props=(pid,))
-        ent = {"cfg": name, "model": "pinned code", "states": r.distinct, "transitions": r.generated, "depth": r.depth,
-               "wall_s": round(r.wall, 1), "complete": r.error is None, "cex": {k: len(v) for k, v in cex.items()},
-               "interesting": len(ints)}
-        tl["design"].append(ent)
+        r, cex, ints = design_run(consts, seed, prof["tlc_timeout"], emit_every=prof["emit_every"],
+                                  modes=((True, False) if both else (True,)), props=(pid,), heap=prof.get("heap", "4g"))
+        # the design that has to satisfy the property's invariants: the repaired one where the pinned code is known
+        # to deviate (C16), the model of the pinned code itself otherwise
+        must_hold = cex[False] if both else cex[True]
+        bad = {k: len(v) for k, v in must_hold.items() if k in MODEL_INVS[pid]}
+        tl["design"].append({"cfg": name, "models": ["pinned code", "repaired design"] if both else ["pinned code"],
+                             "states": r.distinct, "transitions": r.generated, "depth": r.depth, "wall_s": round(r.wall, 1),
+                             "complete": r.error is None, "pinned_model_cex": {k: len(v) for k, v in cex[True].items()},
+                             "design_cex": bad, "interesting": len(ints), "action_coverage": r.actions})
+        if r.actions and r.actions["dead"]:
+            raise Inconclusive("vacuous design run %r: actions never fired: %s" % (name, r.actions["dead"]))
         tl["states"] += r.distinct
         tl["transitions"] += r.generated
-        for k, v in cex.items():
-            cex_all.setdefault(k, []).extend(v)
+        repaired_cex += sum(bad.values())
+        for m in (True, False):
+            for k, v in cex[m].items():
+                cex_all.setdefault(k, []).extend(v)
         for it in ints:
             int_all.setdefault("+".join(sorted(it["tags"])), []).append(it["h"])
-        if not both:
-            # no repaired variant: the pinned-code model itself has to satisfy this property's invariants
-            repaired_cex += sum(len(v) for k, v in cex.items() if k in MODEL_INVS[pid])
-        if both:
-            r2, cex2, _ = design_run(consts, seed, prof["tlc_timeout"], emit_every=0, bugs=False, props=(pid,))
-            mine = {k: len(v) for k, v in cex2.items() if k in MODEL_INVS[pid]}
-            tl["design"].append({"cfg": name, "model": "repaired design", "states": r2.distinct, "transitions": r2.generated,
-                                 "depth": r2.depth, "wall_s": round(r2.wall, 1), "complete": r2.error is None, "cex": mine})
-            tl["states"] += r2.distinct
-            tl["transitions"] += r2.generated
-            repaired_cex += sum(mine.values())
-            for k, v in cex2.items():
-                if k in MODEL_INVS[pid]:
-                    cex_all.setdefault(k, []).extend(v)
     log("%s: design runs: %d distinct states, %d transitions; model counterexamples %s; interesting %d" % (
         pid, tl["states"], tl["transitions"], {k: len(v) for k, v in cex_all.items()}, sum(len(v) for v in int_all.values())))
     rs, sims = simulate(prof["sim"], seed, prof["nsim"], prof["tlc_timeout"])
@@ -420,8 +444,11 @@ def check(pid, tier, seed):
             log("VIOLATION", pid, sig, "x%d" % len(vs), rp)
     withrep = {sid for sid, l in by.items() if any(e["ev"] == "report" for ln, e in l)}
     distinct = len({json.dumps(byid[sid]["steps"], sort_keys=True) for sid in withrep if sid in byid})
+    # behaviours of a design run that explores every goroutine schedule (Eager=FALSE) cannot be forced on the real
+    # goroutine; their predictions are not comparable
+    comparable = ("cex", "int", "sim") if all(c.get("Eager", True) for _, c, _ in prof["design"]) else ("sim",)
     ndrift = sum(drift(byid[sid], l) for sid, l in by.items() if sid in byid and not byid[sid].get("auto")
-                 and origin.get(sid) in ("cex", "int", "sim"))
+                 and origin.get(sid) in comparable and not sid.endswith("w"))
     samples = [byid[s] for s in ([v["id"] for v in mine[:1]] + ["int0", "sim0", "cex0"]) if s in byid][:3]
     cov = {
         "states": max(1, tl["states"] + jr.distinct),
@@ -433,6 +460,9 @@ def check(pid, tier, seed):
         "rule": RULE,
         "samples": samples or [{"note": "no sample"}],
         "judge_antecedents_true": stat,
+        "c17_divergence_cells": {"note": "[differing-field mask (index=1 term=2 type=4 data=8 extensions=16), position in range, "
+                                         "reported error class] observed on the real code", "count": len(jr.cells),
+                                 "cells": sorted(jr.cells, key=str)[:80]},
         "tlc": tl,
         "harness": hst,
         "impl_drift": {"scenarios_where_the_pinned_code_model_mispredicts_a_report": ndrift,
